@@ -95,7 +95,9 @@ BOUND = ('error kinds %s x rendering (Accept in %s) x position of the request te
          'x catchall=False x 8 markup payloads; 300 (thorough 6000) seeded random payloads over all kinds x all histories x catchall. '
          'Added: long request text - kinds {404, 405, 400path, 500, 500echo} x Accept in {none, application/json} x position in '
          '{path, query, host, all} x padding {300, 1100, 5000} (thorough: + 1000, 70000) x 3 payload shapes (markup at both ends '
-         'of the padding, markup after it, markup repeated throughout)'
+         'of the padding, markup after it, markup repeated throughout). '
+         'Added: fullwidth / small-form look-alikes of < > " \' & in the request text x every kind x Accept in {none, application/json} x '
+         'position in {path, query, host, all}: never folded into the real characters'
          % ('{' + ', '.join(KINDS) + '}', ACCEPTS, len(MARKUP), len(FORMATS), ', '.join(ECHO_KINDS), HISTORIES))
 NONTRIVIAL_RULE = ('distinct (kind, accept, where, payload, previous, catchall, history); every case carries at least one '
                    'significant character')
@@ -174,6 +176,12 @@ def gen_cases(tier, seed):
         p = ''.join(rnd3.choice(alphabet) for _ in range(rnd3.randrange(2, 14)))
         yield dict(kind=rnd3.choice(ALL_KINDS), accept=rnd3.choice(ACCEPTS), where=rnd3.choice(WHERES), payload=p, prev=None,
                    catchall=rnd3.choice([0, 1]), history=rnd3.choice(HISTORIES))
+    # compatibility look-alikes of the markup characters in the request text, every kind (incl. the last-resort page)
+    for kind in ALL_KINDS:
+        for accept in ('', 'application/json'):
+            for where in ('path', 'query', 'host', 'all'):
+                for p in ('\uff1cimg src=x onerror=' + M + '\uff1e', '\ufe64b\ufe65' + M + '\uff02\uff07\uff06'):
+                    yield dict(kind=kind, accept=accept, where=where, payload=p, prev=None)
     # long request text (an error page that shortens, wraps or pages what it echoes must still escape all of it)
     for kind in ('404', '405', '400path', '500', '500echo'):
         for accept in ('', 'application/json'):
@@ -501,7 +509,18 @@ def run_case(case):
             return fail('J1.valid_json', status=res.status, content_type=res.header('Content-Type'),
                         error='JSON requested: last-resort HTML page; the HTML rendering of the same request works',
                         body=(res.body or b'')[:300], errors=res.errors[-300:])
-    return check_page(res, refs, payloads, json_requested)
+    bad = check_page(res, refs, payloads, json_requested)
+    if bad is None and any(ch in payload for ch in LOOKALIKES):
+        # compatibility look-alikes of the markup characters (fullwidth / small forms) are harmless as they are; a page that folds
+        # them into the real characters after escaping turns request text into markup
+        text = (res.body or b'').decode('utf8', 'replace')
+        folded = payload
+        for ch, real in LOOKALIKES.items():
+            folded = folded.replace(ch, real)
+        if folded != payload and folded in text:
+            return fail('X5.lookalike_folded_into_markup', status=res.status, payload=payload, found=folded)
+    return bad
 
 
+LOOKALIKES = {'\uff1c': '<', '\uff1e': '>', '\ufe64': '<', '\ufe65': '>', '\uff02': '"', '\uff07': "'", '\uff06': '&'}
 FINDINGS = {}
